@@ -82,6 +82,22 @@ def _pow(sp, e):
     return v
 
 
+
+def _set_units(U, t):
+    q = U.UnitValue(1.5, "")
+    q.units = t
+    return q.units
+
+
+def _same_dim_source(U, t):
+    return ""
+
+
+def _eq_text(U, t):
+    u = U.Units(U.UnitsSystem(), U.UnitsDimensions())
+    r_ = (u == t)          # comparing with a text parses the text: text outside the grammar must raise
+    return "compared: %r" % r_
+
 class Expect:
     __slots__ = ("consistent", "dim", "scale", "bases")
 
@@ -211,7 +227,12 @@ class Ctx:
         self.n = 0
         self._alt = 0
         self.entries = {"parse_units": U.parse_units, "Units": U.Units,
-                        "parse_unitvalue": U.parse_unitvalue, "UnitValue": U.UnitValue}
+                        "parse_unitvalue": U.parse_unitvalue, "UnitValue": U.UnitValue,
+                        # every other public way a unit TEXT gets into the library must read it the same way / refuse it too
+                        "UnitValue(number, text)": lambda t: U.UnitValue(1.5, t).units,
+                        "UnitArray(values, text)": lambda t: U.UnitArray([1.5, 2.5], t).units,
+                        "units setter": lambda t: _set_units(U, t),
+                        "Units == text": lambda t: _eq_text(U, t)}
 
     def seen(self, text, nontrivial=True):
         self.n += 1
@@ -333,6 +354,8 @@ class Ctx:
             self.counts["generator_discarded"] += 1
             return
         self.reject("parse_units", m, fam, mech_units)
+        for entry in ("Units", "UnitValue(number, text)", "UnitArray(values, text)", "units setter", "Units == text"):
+            self.reject(entry, m, fam, mech_units)
         qt = qvalue + " " + m
         if classify_quantity(qt) != "invalid":
             self.counts["generator_discarded"] += 1
